@@ -1,3 +1,4 @@
+import AmVerif.Gen.Skel
 import AmVerif.Lemmas.Reload
 import AmVerif.Lemmas.TopoGraph
 import AmVerif.Props.C18
@@ -589,5 +590,10 @@ theorem C06_at_most_once_per_update (env : Env) (fuel : Nat) (s : St) (r : RSt)
 /-- `reloaded_global` reads and clears the global flag in one atomic `swap` (typed and untyped handle): the model's
 `reloadedGlobal` step is atomic, so among concurrent pollers exactly one sees `true` per rewrite. -/
 theorem C06_reloaded_global_is_one_swap : reloadedGlobalIsAtomicSwap = true := by decide
+
+/-- Every successful load registers its dependency set with the reloader, empty or not (`HotReloader::add_asset` sends
+unconditionally): a key loaded again after a removal gets its OLD dependencies replaced. -/
+theorem C06_add_asset_always_sends :
+    AmVerif.Gen.skel_hot_reloading_mod_HotReloader_add_asset = [.call .s_AddAsset, .call .s_send] := rfl
 
 end AmVerif.Props.C06
